@@ -90,6 +90,7 @@ type Scenario struct {
 	Entries []Entry `json:"entries"`
 	Events  []Event `json:"events"`
 	Missing []int   `json:"missing_subdirs"` // subdirectories removed before the history (if empty)
+	Root    string  `json:"root,omitempty"`  // root class of the cache directory (roots.go); "" = a plain scratch directory
 }
 
 func actionID(k int) cache.ActionID {
@@ -235,7 +236,7 @@ func genNow(r *common.RNG) int64 {
 }
 
 func genScenario(r *common.RNG) *Scenario {
-	s := &Scenario{Frac: genFrac(r)}
+	s := &Scenario{Frac: genFrac(r), Root: genRoot(r)}
 	s.Rec = genRecord(r)
 	frac := s.Frac
 	for i, n := 0, r.Intn(5); i < n; i++ {
@@ -374,6 +375,20 @@ func scenarioJSON(s *Scenario) string {
 
 func describeScenario(s *Scenario) string {
 	var b strings.Builder
+	if sp := rootSpecOf(s.Root); sp != nil {
+		op := sp.Open
+		if op == "" {
+			op = sp.Dir
+		}
+		fmt.Fprintf(&b, "cache directory <scratch>/%q (root class %s) opened as <scratch>/%q", sp.Dir, sp.Key, op)
+		for _, l := range sp.Links {
+			fmt.Fprintf(&b, ", %q a symbolic link to %q", l[0], l[1])
+		}
+		if len(sp.Siblings) > 0 {
+			fmt.Fprintf(&b, ", next to other people's caches %q", sp.Siblings)
+		}
+		b.WriteString("; ")
+	}
 	fmt.Fprintf(&b, "clock = start of the run + %dns", s.Frac)
 	switch s.Rec.Kind {
 	case "none", "":
